@@ -29,7 +29,7 @@ type Use struct {
 // UseV1SC spends p with a v1 transaction (p must carry a v1-class address).
 func (w *World) UseV1SC(p types.SiacoinElement, tag byte) Use {
 	c := w.Keys.ClassOf(p.SiacoinOutput.Address)
-	txn := types.Transaction{SiacoinInputs: []types.SiacoinInput{{ParentID: p.ID, UnlockConditions: w.Keys.StdUC(KeyOf(c))}},
+	txn := types.Transaction{SiacoinInputs: []types.SiacoinInput{{ParentID: p.ID, UnlockConditions: w.Keys.UCFor(c)}},
 		SiacoinOutputs: []types.SiacoinOutput{{Value: p.SiacoinOutput.Value, Address: w.Keys.Addr(AddrV1)}}, ArbitraryData: [][]byte{{'u', tag}}}
 	w.SignV1Whole(&txn)
 	return Use{Name: "v1spend", V1: &txn, Resolves: true, SuppSC: []types.SiacoinElement{p.Copy()}}
@@ -46,7 +46,7 @@ func (w *World) UseV2SC(p types.SiacoinElement, tag byte) Use {
 // UseV1SF spends a siafund element with a v1 transaction.
 func (w *World) UseV1SF(p types.SiafundElement, tag byte) Use {
 	c := w.Keys.ClassOf(p.SiafundOutput.Address)
-	txn := types.Transaction{SiafundInputs: []types.SiafundInput{{ParentID: p.ID, UnlockConditions: w.Keys.StdUC(KeyOf(c)), ClaimAddress: w.Keys.Addr(AddrV1)}},
+	txn := types.Transaction{SiafundInputs: []types.SiafundInput{{ParentID: p.ID, UnlockConditions: w.Keys.UCFor(c), ClaimAddress: w.Keys.Addr(AddrV1)}},
 		SiafundOutputs: []types.SiafundOutput{{Value: p.SiafundOutput.Value, Address: w.Keys.Addr(AddrV1)}}, ArbitraryData: [][]byte{{'u', tag}}}
 	w.SignV1Whole(&txn)
 	return Use{Name: "v1sfspend", V1: &txn, Resolves: true, SuppSF: []types.SiafundElement{p.Copy()}}
@@ -66,7 +66,7 @@ func (w *World) UseV1Revise(fce types.FileContractElement, cur types.FileContrac
 	rev.ValidProofOutputs = append([]types.SiacoinOutput(nil), cur.ValidProofOutputs...)
 	rev.MissedProofOutputs = append([]types.SiacoinOutput(nil), cur.MissedProofOutputs...)
 	rev.RevisionNumber += delta
-	txn := types.Transaction{FileContractRevisions: []types.FileContractRevision{{ParentID: fce.ID, UnlockConditions: w.Keys.ContractUC(), FileContract: rev}}}
+	txn := types.Transaction{FileContractRevisions: []types.FileContractRevision{{ParentID: fce.ID, UnlockConditions: w.Keys.UCForHash(cur.UnlockHash), FileContract: rev}}}
 	w.SignV1Whole(&txn)
 	return Use{Name: "v1revise", V1: &txn, SuppFC: []types.FileContractElement{copyFCE(fce)}}
 }
